@@ -12,7 +12,15 @@ import (
 	"os"
 	"sort"
 	"strings"
+	"sync"
+	"sync/atomic"
 )
+
+// mu guards the simulator's own state.  It only matters when the code under
+// test runs REAL goroutines, i.e. when its concurrency could not be put under
+// the cooperative scheduler (channels, unrewritable go statements); then the
+// run is observation, not simulation, but the instrumentation must not crash.
+var mu sync.Mutex
 
 // Fault is one planned environment fault, matched by global operation index.
 type Fault struct {
@@ -36,15 +44,17 @@ type MapPlan struct {
 }
 
 type Plan struct {
-	Map        MapPlan `json:"map"`
-	Faults     []Fault `json:"faults,omitempty"`
-	Clock      int64   `json:"clock"` // unix seconds of the simulated clock
-	Rand       uint64  `json:"rand"`
-	Pid        int     `json:"pid"`
-	Host       string  `json:"host,omitempty"`
-	TickBudget int64   `json:"tick_budget"`
-	Root       string  `json:"root,omitempty"` // path prefix stripped from logged paths
-	Log        string  `json:"log,omitempty"`
+	Map        MapPlan   `json:"map"`
+	Faults     []Fault   `json:"faults,omitempty"`
+	Clock      int64     `json:"clock"` // unix seconds of the simulated clock
+	Rand       uint64    `json:"rand"`
+	Pid        int       `json:"pid"`
+	Host       string    `json:"host,omitempty"`
+	Sched      SchedPlan `json:"sched,omitempty"`
+	CPUs       int       `json:"cpus,omitempty"`
+	TickBudget int64     `json:"tick_budget"`
+	Root       string    `json:"root,omitempty"` // path prefix stripped from logged paths
+	Log        string    `json:"log,omitempty"`
 }
 
 var (
@@ -111,6 +121,8 @@ func init() {
 
 // Logf appends one event line to the run's log. It draws nothing and reads no clock.
 func Logf(format string, args ...interface{}) {
+	mu.Lock()
+	defer mu.Unlock()
 	if logf != nil {
 		fmt.Fprintf(logf, format+"\n", args...)
 	}
@@ -127,11 +139,13 @@ func Rel(p string) string {
 
 // Tick is inserted at every function entry and loop head of gocc's own packages.
 func Tick() {
-	ticks++
-	if ticks > ThePlan.TickBudget {
+	if atomic.AddInt64(&ticks, 1) > ThePlan.TickBudget {
 		Logf("tick-budget-exceeded %d", ticks)
 		AtExit(ExitTickBudget)
 		os.Exit(ExitTickBudget)
+	}
+	if spawned > 0 {
+		coopYield()
 	}
 }
 
@@ -140,10 +154,13 @@ func Ticks() int64 { return ticks }
 // AtExit flushes counters. It is called by simos.Exit, by the deferred call the
 // rewriter puts at the top of main.main (code -1: fell off main or panicking).
 func AtExit(code int) {
+	mu.Lock()
 	if done {
+		mu.Unlock()
 		return
 	}
 	done = true
+	mu.Unlock()
 	sites := make([]string, 0, len(siteStat))
 	for s := range siteStat {
 		sites = append(sites, s)
@@ -152,6 +169,9 @@ func AtExit(code int) {
 	for _, s := range sites {
 		st := siteStat[s]
 		Logf("site %s visits=%d multi=%d permuted=%d maxlen=%d", s, st.Visits, st.Multi, st.Permuted, st.MaxLen)
+	}
+	if spawned > 0 {
+		Logf("tasks spawned=%d switches=%d", spawned, switches)
 	}
 	Logf("permhash %016x", permHash)
 	Logf("ticks %d", ticks)
@@ -186,6 +206,8 @@ func Keys[K comparable, V any](m map[K]V, site string) []K {
 		keys = append(keys, k)
 	}
 	sortKeys(keys)
+	mu.Lock()
+	defer mu.Unlock()
 	occ[site]++
 	o := occ[site]
 	st := siteStat[site]
